@@ -351,7 +351,7 @@ class YPPrologCompiler:
         if isinstance(expr,Atom):
             return YPCodeCall('atom',[YPCodeExpr(expr.value)])
         if isinstance(expr,VariableTerm):
-            return YPCodeVar(expr.varname)
+            return YPCodeVar(self.get_prolog_variable(expr.varname))
         if isinstance(expr,Functor):
             args = [ self.compile_expression(a) for a in expr.args ]
             return YPCodeCall('functor',[ YPCodeExpr(expr.name.value), YPCodeList(args) ])
@@ -390,13 +390,17 @@ class YPPrologCompiler:
         code = []
         for i in range(len(args)):
             if self.head_args_by_pos[i] != None:
-                code.append( YPCodeAssign(YPCodeVar(args[i]),YPCodeVar(self.get_argument_variable(i))) )
+                code.append( YPCodeAssign(YPCodeVar(self.get_prolog_variable(args[i].varname)),YPCodeVar(self.get_argument_variable(i))) )
         return code
     def compile_free_variable_declarations(self,variables):
         code = [ self.compile_variable_declaration(v) for v in variables ]
         return code
     def compile_variable_declaration(self,var):
-        return YPCodeAssign(YPCodeVar(var),YPCodeCall("variable",[]))
+        return YPCodeAssign(YPCodeVar(self.get_prolog_variable(var)),YPCodeCall("variable",[]))
+    def get_prolog_variable(self,name):
+        # Prolog variables get a prefix, so that they can never be a Python
+        # keyword or one of the names used by the generated code.
+        return "V_"+name
     def get_argument_variable(self,i):
         return "arg"+str(i+1)
     def get_loop_variable(self):
